@@ -277,7 +277,17 @@ def oracle(A, approx=False):
     info['inexact'] = inexact
     if bad:
         a, b, lhs, rhs = bad[0]
-        problems.append(('identity',
+        # is A* wrong only by ONE common factor (lhs = c * rhs for every basis pair)?  Then the
+        # failure is reported under its own kind, so that a finding of this specific shape
+        # (e.g. the missing factor N of the DFT) cannot mask any other defect of the class
+        kind = 'identity'
+        if len(bad) > 1 and float(rhs) != 0:
+            c = float(lhs) / float(rhs)
+            uni = all(abs(float(MA[i][j] * Gr[j]) - c * float(Gd[i] * MB[j][i])) <=
+                      1e-9 * scale for i in range(nd) for j in range(nr))
+            if uni:
+                kind = 'identity-common-factor'
+        problems.append((kind,
                          '<A e_{a}, f_{b}>_ran = {l} but <e_{a}, A* f_{b}>_dom = {r} '
                          '({n} of {t} basis pairs differ; real-coordinate unit vectors e_{a} of '
                          'the domain, f_{b} of the range)'.format(
